@@ -50,16 +50,16 @@ def TOKEN(value, typ):
 
 def binary_emits_parenthesised(self, result):
     """a binary operator below another operator is emitted inside parentheses; at the top and directly below a function
-    call (where commas delimit it) it is emitted bare"""
+    call (where commas delimit it) it may be emitted bare"""
     core = self._children[0].emit + ' ' + py_op(self.token.value) + ' ' + self._children[1].emit
-    bare = self._parent is None or is_function_node(self._parent)
-    return result == (core if bare else '(' + core + ')')
+    bare_allowed = self._parent is None or is_function_node(self._parent)
+    return result == '(' + core + ')' or (bare_allowed and result == core)
 
 
 def percent_emits_division(self, result):
     core = self._children[0].emit + ' / 100'
-    bare = self._parent is None or is_function_node(self._parent)
-    return result == (core if bare else '(' + core + ')')
+    bare_allowed = self._parent is None or is_function_node(self._parent)
+    return result == '(' + core + ')' or (bare_allowed and result == core)
 
 
 def prefix_emits_sign(self, result):
@@ -67,7 +67,7 @@ def prefix_emits_sign(self, result):
     unary minus, the grammar's negation binds tighter than ^)"""
     core = self.token.value + self._children[0].emit
     below_power = self._parent is not None and not is_function_node(self._parent) and self._parent.token.value == '^'
-    return result == ('(' + core + ')' if below_power else core)
+    return result == '(' + core + ')' or (not below_power and result == core)
 
 
 def is_function_node(n):
